@@ -38,6 +38,8 @@
 (*                   annotated type of its package                         *)
 (*   GroupDocLeaks - the doc comment of T reaches the next, undocumented   *)
 (*                   spec of its type group                                *)
+(*   RecvNameMemo  - what is known about T's receiver (its name) is kept   *)
+(*                   from the first method of T that is walked             *)
 (*   RecvBySyntax  - a receiver spelled *TA / *(T) is not recognised as T  *)
 (*   CtorByBareName - the exemption is looked up under the current package *)
 (*                   and the bare type name: u's own type T (constructors  *)
@@ -50,11 +52,14 @@ CONSTANTS Mode,        \* "single" | "spell" | "seq2" | "seq3"
           Emit
 
 VARIABLES prog,   \* [ann, pkg, files]
-          fi, ci, ph, cur, recv, diags
+          fi, ci, ph, cur, recv, diags,
+          rname   \* the receiver *name* of the first method of T the walk of the package met (read by the RecvNameMemo deviation only)
 
-vars == <<prog, fi, ci, ph, cur, recv, diags>>
+vars == <<prog, fi, ci, ph, cur, recv, diags, rname>>
+NameOfRecv(c) == CASE c.kind = "pmethQ" -> "q" [] c.kind = "pmeth0" -> "_" [] c.kind \in {"pmeth", "vmeth"} -> "r" [] OTHER -> "none"
 
-Kinds  == {"ctor1", "ctor2", "other", "pmeth", "vmeth", "cmeth", "ometh", "init", "pkgvar"}
+Kinds  == {"ctor1", "ctor2", "other", "pmeth", "pmethQ", "pmeth0", "vmeth", "cmeth", "ometh", "init", "pkgvar"}
+\* pmethQ: a pointer method of T whose receiver is called q (all others are called r); pmeth0: a pointer method with an unnamed receiver
 Stmts  == {"assignX", "assignM", "multiX", "compoundX", "compoundM", "incX", "decX", "incM", "indexXs", "indexMp",
            "readX", "onU", "onTG", "local", "recvAssign", "recvInc", "recvDec", "starPlain", "starPlainInc",
            "onHidden",   \* d.Hidden().X = v : hidden is an unexported type of d (@immutable iff T is) handed out by an exported function
@@ -74,16 +79,18 @@ Cont(k, s, v, p, n, sp) == [kind |-> k, stmt |-> s, via |-> v, ptr |-> p, nest |
 
 (* which containers exist in Go at all (the concretisation compiles exactly these) *)
 Valid(c, pkg) ==
-  /\ (c.kind \in {"pmeth", "vmeth", "cmeth"} => pkg = "d")
-  /\ (c.via = "r" => c.kind \in {"pmeth", "vmeth"})
-  /\ (c.stmt = "recvAssign" => c.kind = "pmeth" /\ c.via = "r")
+  /\ (c.kind \in {"pmeth", "pmethQ", "pmeth0", "vmeth", "cmeth"} => pkg = "d")
+  /\ (c.via = "r" => c.kind \in {"pmeth", "pmethQ", "vmeth"})
+  /\ (c.stmt = "recvAssign" => c.kind \in {"pmeth", "pmethQ"} /\ c.via = "r")
+  /\ (c.kind = "pmethQ" => c.stmt \in {"recvAssign", "assignX", "readX"} /\ c.nest = "none" /\ c.sp = "direct")
+  /\ (c.kind = "pmeth0" => c.stmt \in {"assignX", "readX"} /\ c.via = "p" /\ c.nest = "none" /\ c.sp = "direct")
   /\ (c.kind = "cmeth" <=> c.stmt \in {"recvInc", "recvDec"})
   /\ (c.kind = "cmeth" => c.via = "p" /\ c.ptr)
-  /\ (c.via = "r" => c.ptr = (c.kind = "pmeth"))
+  /\ (c.via = "r" => c.ptr = (c.kind \in {"pmeth", "pmethQ"}))
   /\ (c.stmt \in {"onT2", "onHidden", "local", "recvInc", "recvDec", "starPlain", "starPlainInc"} => c.ptr /\ c.sp = "direct" /\ c.via = "p")
   /\ (c.stmt = "onU" => c.ptr /\ c.sp \in {"direct", "fnalias"} /\ c.via = "p")
   \* onTG: a write to d.TG, the undocumented spec that follows T inside one `type ( ... )` group (T's doc is not TG's)
-  /\ (c.stmt = "onTG" => c.ptr /\ c.sp = "direct" /\ c.via = "p" /\ c.kind \notin {"pmeth", "vmeth", "cmeth"})
+  /\ (c.stmt = "onTG" => c.ptr /\ c.sp = "direct" /\ c.via = "p" /\ c.kind \notin {"pmeth", "pmethQ", "pmeth0", "vmeth", "cmeth"})
   /\ (c.sp = "fnalias" => c.ptr /\ c.via = "p" /\ c.kind \in {"ctor1", "other", "init", "ometh"})
   \* `*r = v` on a plain *int that is merely *named* like the receivers of the methods (all receivers are called r)
   /\ (c.stmt \in {"starPlain", "starPlainInc"} => c.kind \in {"ctor1", "ctor2", "other", "init", "pkgvar", "ometh"})
@@ -93,7 +100,7 @@ Valid(c, pkg) ==
 
 FnName(c) == CASE c.kind = "ctor1" -> "NewT" [] c.kind = "ctor2" -> "MakeT" [] c.kind = "init" -> "init"
                [] c.kind = "pkgvar" -> "" [] OTHER -> "fn"
-RecvOf(c) == CASE c.kind \in {"pmeth", "vmeth"} -> "T" [] c.kind = "cmeth" -> "C" [] c.kind = "ometh" -> "O" [] OTHER -> ""
+RecvOf(c) == CASE c.kind \in {"pmeth", "pmethQ", "pmeth0", "vmeth"} -> "T" [] c.kind = "cmeth" -> "C" [] c.kind = "ometh" -> "O" [] OTHER -> ""
 
 WriteCode(s) == CASE s \in {"assignX", "assignM", "multiX", "recvAssign", "onT2", "onHidden"} -> "IMM01"
                   [] s \in {"compoundX", "compoundM"} -> "IMM02"
@@ -125,7 +132,8 @@ UniqueCtors(fs) ==
 
 SeqStmts == {"assignX", "incX", "readX", "assignM", "starPlain", "onT2", "onTG"}     \* (onHidden only in the single mode)
 SeqAnns  == {a \in Anns : a.imm /\ ~a.noise /\ a.ctors # <<"NewT", "MakeT">>}
-SeqCont(pkg) == {c \in {Cont(k, s, "p", TRUE, "none", "direct") : k \in Kinds \ {"cmeth", "ometh", "ctor2"}, s \in SeqStmts} : Valid(c, pkg)}
+SeqCont(pkg) == {c \in {Cont(k, s, "p", TRUE, "none", "direct") : k \in Kinds \ {"cmeth", "ometh", "ctor2"}, s \in SeqStmts}
+                          \cup {Cont(k, "recvAssign", "r", TRUE, "none", "direct") : k \in {"pmeth", "pmethQ"}} : Valid(c, pkg)}
 
 Splits(cs) ==  \* distribute a sequence of containers over one or two files, keeping order
   {<<cs>>} \cup {<<SubSeq(cs, 1, k), SubSeq(cs, k + 1, Len(cs))>> : k \in 1..(Len(cs) - 1)}
@@ -163,6 +171,7 @@ InitProg ==
 Init == /\ InitProg
         /\ fi = 1 /\ ci = 0 /\ ph = "begin"
         /\ cur = "?" /\ recv = "?"      \* "?" = never assigned (the pinned code's nil pointer)
+        /\ rname = "none"
         /\ diags = {}
 
 Leak == "LeakWalkState" \in Deviations
@@ -173,7 +182,7 @@ BeginFile ==
   /\ ph = "begin"
   /\ IF Leak THEN UNCHANGED <<cur, recv>> ELSE cur' = "" /\ recv' = ""
   /\ ci' = 1 /\ ph' = "enter"
-  /\ UNCHANGED <<prog, fi, diags>>
+  /\ UNCHANGED <<prog, fi, diags, rname>>
 
 \* a FuncDecl sets the walk context; a GenDecl (pkgvar) does not
 EnterDecl ==
@@ -183,6 +192,7 @@ EnterDecl ==
           \* RecvBySyntax: the receiver type is read off the source text, an alias or a parenthesised type is not recognised
           /\ recv' = IF "RecvBySyntax" \in Deviations /\ CurC.via = "r" /\ CurC.sp # "direct" THEN "" ELSE RecvOf(CurC)
   /\ ph' = "visit"
+  /\ rname' = IF rname = "none" /\ NameOfRecv(CurC) # "none" THEN NameOfRecv(CurC) ELSE rname
   /\ UNCHANGED <<prog, fi, ci, diags>>
 
 \* what the checker decides for the statement, from the walk state only
@@ -201,7 +211,8 @@ VisitVerdict(c) ==
      ELSE IF c.stmt = "onTG" THEN (IF "GroupDocLeaks" \in Deviations /\ prog.ann.imm THEN "IMM01" ELSE "none")
      ELSE IF ~prog.ann.imm \/ code = "none" THEN "none"
      ELSE IF c.stmt \in {"recvAssign", "recvInc", "recvDec"}
-       THEN (IF recv \in {"T", "C"} /\ ~exempt THEN code ELSE "none")
+       \* RecvNameMemo: the receiver name recognised for T is the one of the first method of T that was walked
+       THEN (IF recv \in {"T", "C"} /\ ~exempt /\ ~("RecvNameMemo" \in Deviations /\ c.stmt = "recvAssign" /\ rname # NameOfRecv(c)) THEN code ELSE "none")
      ELSE IF ~Seen(c) THEN "none"
      ELSE IF exempt THEN "none"
      ELSE IF OnMutableField(c.stmt) /\ prog.ann.mut THEN "none"
@@ -214,18 +225,18 @@ Visit ==
        ELSE LET v == VisitVerdict(CurC) IN
             diags' = IF v = "none" \/ <<0, 0, "CRASH">> \in diags THEN diags ELSE diags \cup {<<fi, ci, v>>}
   /\ ph' = "leave"
-  /\ UNCHANGED <<prog, fi, ci, cur, recv>>
+  /\ UNCHANGED <<prog, fi, ci, cur, recv, rname>>
 
 LeaveDecl ==
   /\ ph = "leave"
   /\ IF Leak THEN UNCHANGED <<cur, recv>> ELSE cur' = "" /\ recv' = ""
   /\ IF ci < Len(prog.files[fi]) THEN ci' = ci + 1 /\ ph' = "enter" ELSE ci' = ci /\ ph' = "endfile"
-  /\ UNCHANGED <<prog, fi, diags>>
+  /\ UNCHANGED <<prog, fi, diags, rname>>
 
 EndFile ==
   /\ ph = "endfile"
   /\ IF fi < Len(prog.files) THEN fi' = fi + 1 /\ ci' = 0 /\ ph' = "begin" ELSE fi' = fi /\ ci' = ci /\ ph' = "done"
-  /\ UNCHANGED <<prog, cur, recv, diags>>
+  /\ UNCHANGED <<prog, cur, recv, diags, rname>>
 
 Finished == ph = "done" /\ UNCHANGED vars
 
